@@ -168,6 +168,9 @@ func (e *Engine) stub6(fn *ssa.Function, args []any) (any, bool) {
 		return Tuple{nil, e.mkErr("x509: malformed certificate")}, true
 	case "crypto/x509.NewCertPool":
 		return newObj(&PoolV{}), true
+	case "(*crypto/x509.CertPool).Clone":
+		pool := (*args[0].(Ptr).cells)[0].(*PoolV)
+		return newObj(&PoolV{certs: append([]Ptr{}, pool.certs...)}), true
 	case "(*crypto/x509.CertPool).AddCert":
 		pool := (*args[0].(Ptr).cells)[0].(*PoolV)
 		pool.certs = append(pool.certs, args[1].(Ptr))
@@ -388,6 +391,13 @@ func (e *Engine) clientHandshake(c *TLSConnV) any {
 			offered, _ := getF(cfg, tConfig, "NextProtos").(SliceV)
 			r := e.call(cl.fn, []any{offered}, cl.bind).(Tuple)
 			if !e.branch(r[2]) {
+				// the server refused the hello: crypto/tls reports the alert as a *net.OpError; a harness that cares
+				// declares that value (RefuseErr)
+				if hasField(advSt, "RefuseErr") {
+					if re, ok := c.adv[fieldIdx(advSt, "RefuseErr")].(IfaceV); ok && re.T != nil {
+						return re
+					}
+				}
 				return fail("handshake failure (the server refused the hello)")
 			}
 			c.adv[fieldIdx(advSt, "Proto")] = r[0]
